@@ -84,10 +84,14 @@ def discharge(cx, obligations, timeout_s=10.0, jobs=None, progress=None):
     t0 = time.time()
 
     def one(ob):
-        text = cx.query(ob)
-        r = solve_one(text, timeout_s)
-        if r["status"] == "unknown" and timeout_s < 30:
-            pass
+        r = solve_one(cx.query(ob, relevant=True), min(timeout_s, 4.0))
+        if r["status"] != "unsat":
+            r = solve_one(cx.query(ob, relevant=True, level=0), min(timeout_s, 8.0))
+        if r["status"] != "unsat":
+            # hypotheses were only dropped, never added: anything but unsat is re-posed in full
+            r = solve_one(cx.query(ob), timeout_s)
+        else:
+            r["filtered"] = True
         ob.result = r
         return ob
 
